@@ -1,6 +1,8 @@
 // Generates lib_native.rs: /repo/packages/beff-wasm/src/lib.rs verbatim, minus the crate-level `extern crate` / `mod` lines (declared in
-// main.rs) and minus the three `#[wasm_bindgen] extern "C" { fn ...; }` host-import blocks (they abort on native targets; main.rs provides
-// in-memory replacements with the same signatures).  Nothing else of the session code is touched.
+// main.rs), minus the `#[wasm_bindgen]` attributes and the two `use wasm_bindgen::...` lines (main.rs provides a plain-Rust `JsValue` with the
+// two constructors the session code uses, so that the PUBLIC entry points bundle_to_string_v2 / bundle_to_diagnostics / update_file_content
+// run natively) and minus the three `extern "C" { fn ...; }` host-import blocks (main.rs provides in-memory replacements with the same
+// signatures).  Nothing else of the session code is touched.
 use std::{env, fs, path::PathBuf};
 fn main() {
     let repo = env::var("VERIF_REPO").unwrap_or_else(|_| "/repo".to_string());
@@ -10,7 +12,6 @@ fn main() {
     println!("cargo:rerun-if-env-changed=VERIF_REPO");
     let text = fs::read_to_string(&src).expect("lib.rs");
     let mut out = String::new();
-    let mut held: Option<String> = None;
     let mut skipping = false;
     for line in text.lines() {
         if skipping {
@@ -18,9 +19,9 @@ fn main() {
             continue;
         }
         if line == "#[macro_use]" || line == "extern crate lazy_static;" || line == "mod module_resolver;" || line == "mod utils;" { continue; }
-        if line == "#[wasm_bindgen]" { held = Some(line.to_string()); continue; }
-        if held.is_some() && line == "extern \"C\" {" { held = None; skipping = true; continue; }
-        if let Some(h) = held.take() { out.push_str(&h); out.push('\n'); }
+        if line == "use wasm_bindgen::JsValue;" || line == "use wasm_bindgen::prelude::wasm_bindgen;" || line == "use wasm_bindgen::prelude::*;" { continue; }
+        if line.trim() == "#[wasm_bindgen]" { continue; }
+        if line == "extern \"C\" {" { skipping = true; continue; }
         out.push_str(line);
         out.push('\n');
     }
